@@ -366,6 +366,15 @@ PINNED_RULES = {
               ' ~ (record_item ~ ("," ~ (comment ~ (WHITESPACE | plain_newline)+ | WHITESPACE | plain_newline)* ~ record_item)*)?'
               ' ~ ("," ~ (WHITESPACE | plain_newline)*)?'
               ' ~ (comment ~ (WHITESPACE | plain_newline)* | WHITESPACE | plain_newline)* ~ "}" }',
+    # do-blocks (Model/ExprPeg.lean `doR`, `doStmtsR`, `doStmtR`, `doHead`, `stmtSep`, `retHead`):
+    # compound-atomic, explicit layout; comments are read and dropped
+    "do_statement": "{ (expression | comment) ~ (WHITESPACE* ~ comment)? }",
+    "return_statement": '${ WHITESPACE* ~ "return" ~ WHITESPACE+ ~ expression }',
+    "do_block": '${ "do" ~ (WHITESPACE | plain_newline)+ ~ "{" ~ (comment ~ (WHITESPACE | plain_newline)+ | WHITESPACE | plain_newline)*'
+                ' ~ (WHITESPACE* ~ do_statement ~ WHITESPACE* ~ (plain_newline+ | ";")'
+                ' ~ (comment ~ (WHITESPACE | plain_newline)+ | WHITESPACE | plain_newline)*)*'
+                ' ~ (comment ~ (WHITESPACE | plain_newline)* | WHITESPACE | plain_newline)*'
+                ' ~ return_statement ~ (WHITESPACE | plain_newline)* ~ "}" }',
     # conditionals (Model/ExprPeg.lean `condR`, `ifHead`, `kwGap`): atomic, explicit layout
     "conditional": '${ "if" ~ WHITESPACE+ ~ expression ~ (WHITESPACE | NEWLINE)+ ~ "then" ~ (WHITESPACE | NEWLINE)+ ~ expression'
                    ' ~ (WHITESPACE | NEWLINE)+ ~ "else" ~ (WHITESPACE | NEWLINE)+ ~ expression }',
